@@ -1,11 +1,41 @@
 // trace driver: runs ONE primitive of the real m4ri code between two marker stores.
 #include <m4ri/m4ri.h>
 #include <m4ri/xor.h>
+#include <m4ri/mmc.h>
+#include <m4ri/ple_russian.h>
+#include <m4ri/graycode.h>
+#include <m4ri/triangular_russian.h>
 #include <stdio.h>
 #include <stdlib.h>
 #include <string.h>
+void _mzd_apply_p_right_even(mzd_t *A, mzp_t const *P, rci_t start_row, rci_t start_col, int notrans);  // mzp.c (not in mzp.h)
+#include <assert.h>
+// The transposition kernels of m4ri/mzd.c are `static inline`: tk_static.inc is the BYTE-IDENTICAL text of
+// m4ri/mzd.c lines 262-967 (_mzd_copy_transpose_64x64 … _mzd_copy_transpose_small, incl. log2_ceil_table, transpose_mask,
+// _mzd_transpose_Nxjx64) and lines 1080-1127 (split_round, _mzd_transpose_notsmall, _mzd_transpose), extracted by build.sh
+// with sed, under the same names.  _mzd_transpose_base is an external symbol of obj/mzd.o and is NOT copied.
+void _mzd_transpose_base(word *RESTRICT fwd, word const *RESTRICT fws, wi_t rowstride_dst, wi_t rowstride_src, rci_t nrows, rci_t ncols, rci_t maxsize);
+#include "tk_static.inc"
+/* non-static functions of triangular_russian.c that have no prototype in the headers */
+void _mzd_trsm_upper_left_submatrix(mzd_t const *U, mzd_t *B, rci_t const start_row, int const k, word const mask_end);
+void _mzd_trsm_lower_left_submatrix(mzd_t const *L, mzd_t *B, rci_t const start_row, int const k, word const mask_end);
+void mzd_make_table_trtri(mzd_t const *M, rci_t r, rci_t c, int k, ple_table_t *Tb, rci_t startcol);
 volatile unsigned long MARK;
-static mzd_t *parents[16]; static int np = 0;
+volatile unsigned long MARKT;  // like MARK, but only accesses made by instructions of this executable are kept (see flt.c)
+/* byte-identical copy of the body of the `static inline` function _mzd_trtri_upper_submatrix (triangular_russian.c:378-382) */
+static inline void copy_mzd_trtri_upper_submatrix(mzd_t *A, rci_t pivot_r, rci_t elim_r, const int k) {
+  for (rci_t i = pivot_r; i < pivot_r + k; i++)
+    for (rci_t j = elim_r; j < i; j++)
+      if (mzd_read_bit(A, j, i) && (i + 1) < A->ncols) mzd_row_add_offset(A, j, i, i + 1);
+}
+/* The russian TRSM routines allocate their 8 tables themselves (mzd_init = m4ri_mmc_malloc + memset).  The driver
+   pre-allocates 8 blocks of exactly that size, declares them as operands 2..9, and gives them back to m4ri's block cache in
+   order, so that the t-th mzd_init of the routine receives block t.  The call is bracketed by MARKT, so that the calloc
+   stores (made by libc's memset) do not show up as table accesses.  (If the block cache did not hand the blocks back as
+   planned the table accesses would be missing or attributed to the wrong operand and the comparison would fail; the driver
+   also checks afterwards that the 8 blocks are the ones in the cache.) */
+static word rnd64b(void) { word w = 0; for (int i = 0; i < 5; i++) w = (w << 13) ^ (word)rand(); return w; }
+static mzd_t *parents[32]; static int np = 0;
 static mzd_t *mk(int op, int nrows, int ncols, int phase) {
   mzd_t *P = mzd_init(nrows + 2, ncols + 64 * phase + 192);
   mzd_t *W = mzd_init_window(P, 1, 64 * phase, 1 + nrows, 64 * phase + ncols);
@@ -13,6 +43,63 @@ static mzd_t *mk(int op, int nrows, int ncols, int phase) {
   printf("OP %d data=%lx rowstride=%d nrows=%d ncols=%d lo=%lx hi=%lx\n", op, (unsigned long)W->data, W->rowstride,
          nrows, ncols, (unsigned long)P->data, (unsigned long)(P->data + (size_t)P->rowstride * P->nrows));
   return W;
+}
+static mzd_t *mkwhole(int op, int nrows, int ncols) {  // a non-windowed matrix straight from mzd_init (phase 0)
+  mzd_t *P = mzd_init(nrows, ncols);
+  parents[np++] = P;
+  printf("OP %d data=%lx rowstride=%d nrows=%d ncols=%d lo=%lx hi=%lx\n", op, (unsigned long)P->data, P->rowstride,
+         nrows, ncols, (unsigned long)P->data, (unsigned long)(P->data + (size_t)P->rowstride * P->nrows));
+  return P;
+}
+static mzd_t *mkany(int op, int nrows, int ncols, int phase, int kind) { return kind ? mkwhole(op, nrows, ncols) : mk(op, nrows, ncols, phase); }
+static void ksplit(int N, int k, int *ks) {  // the ka..kf of mzd_process_rowsN
+  if (N == 2) { ks[0] = k / 2; ks[1] = k - k / 2; return; }
+  int rem = k % N;
+  for (int j = 0; j < N; j++) ks[j] = k / N + ((j + 1 < N && rem >= N - 1 - j) ? 1 : 0);
+}
+// a LAPACK-style permutation of `len` entries over `n` positions, printed as an X line.
+// mode 0: identity; 1: random P[i] in [i, n); 2: sparse (about one entry in 8 moved); 3: only entries < 64 moved; 4: only entries >= 64 moved
+static mzp_t *mkperm(int len, int n, int mode, int seed) {
+  mzp_t *P = mzp_init(len); srand(seed);
+  for (int i = 0; i < len; i++) {
+    int v = i;
+    if (i < n - 1) {
+      int rnd = i + rand() % (n - i);
+      if (mode == 1) v = rnd;
+      else if (mode == 2 && rand() % 8 == 0) v = rnd;
+      else if (mode == 3 && i < 64) v = i + rand() % (MIN(n, 64) - i);
+      else if (mode == 4 && i >= 64) v = rnd;
+    }
+    if (i >= n) v = i % (n > 0 ? n : 1);
+    P->values[i] = v;
+  }
+  printf("X"); for (int i = 0; i < len; i++) printf(" %d", P->values[i]); printf("\n");
+  return P;
+}
+
+/* ---- part 3a: PLE kernels (ple_russian.c / ple_russian_template.h) ---- */
+void mzd_make_table_ple(mzd_t const *A, rci_t r, rci_t writecol, int k, int knar, ple_table_t *table, rci_t *offsets,
+                        int base, rci_t readcol, int fullrank);   /* not declared in ple_russian.h */
+void _mzd_ple_a10(mzd_t *A, mzp_t const *P, rci_t const start_row, rci_t const start_col, wi_t const addblock, int const k, rci_t *pivots);
+void _mzd_ple_a11_1(mzd_t *A, rci_t const start_row, rci_t const stop_row, rci_t const start_col, wi_t const addblock, int const k, ple_table_t const *T0);
+#define DECLPLE(N) void _mzd_process_rows_ple_##N(mzd_t *M, rci_t startrow, rci_t stoprow, rci_t startcol, int const *k, const ple_table_t **T); \
+  void _mzd_ple_a11_##N(mzd_t *A, rci_t const start_row, rci_t const stop_row, rci_t const start_col, wi_t const block, int const *k, ple_table_t const **table);
+DECLPLE(2) DECLPLE(3) DECLPLE(4) DECLPLE(5) DECLPLE(6) DECLPLE(7) DECLPLE(8)
+static unsigned long long rs_ = 88172645463325252ULL;
+static unsigned long long rnd64(void) { rs_ ^= rs_ << 13; rs_ ^= rs_ >> 7; rs_ ^= rs_ << 17; return rs_; }
+static void fill_random(mzd_t *M, int fill) {  /* fill 0: zero matrix; otherwise random bits (excess bits of the last word untouched) */
+  if (!fill) return;
+  for (int i = 0; i < M->nrows; i++) for (int j = 0; j < M->ncols; j++) if (rnd64() & 1) mzd_write_bit(M, i, j, 1);
+}
+/* a hand-made ple_table_t whose T is a window with the given phase: operand number op, nr rows, nc columns */
+static ple_table_t *mk_table(int op, int nr, int nc, int phase, int kj, int fill) {
+  ple_table_t *t = malloc(sizeof(ple_table_t));
+  t->T = mk(op, nr, nc, phase);
+  size_t n = (size_t)1 << kj;
+  t->E = malloc(n * sizeof(rci_t)); t->M = malloc(n * sizeof(rci_t)); t->B = malloc((n > (size_t)nr ? n : (size_t)nr) * sizeof(word));
+  for (size_t i = 0; i < n; i++) { t->E[i] = (rci_t)(rnd64() % nr); t->M[i] = (rci_t)(rnd64() % nr); }
+  for (size_t i = 0; i < (n > (size_t)nr ? n : (size_t)nr); i++) t->B[i] = fill ? rnd64() : 0;
+  return t;
 }
 #define A(i) atoi(argv[i])
 static int run_case(int argc, char **argv) {
@@ -97,14 +184,231 @@ static int run_case(int argc, char **argv) {
     if (fill) for (int i = 0; i < M->nrows; i++) if ((i * 7 + fill) % 3) mzd_write_bit(M, i, A(7), 1);
     printf("BITS"); for (int i = 0; i < M->nrows; i++) printf(" %d", (int)mzd_read_bits(M, i, A(7), k)); printf("\n");
     fflush(stdout); MARK = 1; mzd_process_rows(M, A(5), A(6), A(7), k, T, L); MARK = 2;
+  } else if (!strcmp(f, "prowsN")) {  // N ; M hdr ; phT ; startrow stoprow startcol k fill
+    int N = A(2); mzd_t *M = mk(0, A(3), A(4), A(5)); int phT = A(6); int k = A(10); int fill = A(11);
+    int ks[6]; ksplit(N, k, ks);
+    mzd_t *T[6]; rci_t *L[6];
+    for (int j = 0; j < N; j++) {
+      int nr = 1 << ks[j]; if (nr < 2) nr = 2;
+      T[j] = mk(j + 1, nr, A(4), phT); L[j] = malloc(sizeof(rci_t) * ((size_t)1 << k));
+      for (int i = 0; i < (1 << k); i++) L[j][i] = (i == 0) ? 0 : (i * (2 * j + 3) + j + fill) % nr;
+    }
+    srand(fill);
+    if (fill) for (int i = 0; i < M->nrows; i++) if (fill == 1 || (rand() % 4)) for (int b = 0; b < k; b++) if ((rand() >> 3) & 1) mzd_write_bit(M, i, A(9) + b, 1);
+    printf("X");
+    for (int i = 0; i < M->nrows; i++) { word bits = mzd_read_bits(M, i, A(9), k);
+      for (int j = 0; j < N; j++) { printf(" %d", (int)L[j][bits & __M4RI_LEFT_BITMASK(ks[j])]); bits >>= ks[j]; } }
+    printf("\n");
+    fflush(stdout); MARK = 1;
+    switch (N) {
+    case 2: mzd_process_rows2(M, A(7), A(8), A(9), k, T[0], L[0], T[1], L[1]); break;
+    case 3: mzd_process_rows3(M, A(7), A(8), A(9), k, T[0], L[0], T[1], L[1], T[2], L[2]); break;
+    case 4: mzd_process_rows4(M, A(7), A(8), A(9), k, T[0], L[0], T[1], L[1], T[2], L[2], T[3], L[3]); break;
+    case 5: mzd_process_rows5(M, A(7), A(8), A(9), k, T[0], L[0], T[1], L[1], T[2], L[2], T[3], L[3], T[4], L[4]); break;
+    case 6: mzd_process_rows6(M, A(7), A(8), A(9), k, T[0], L[0], T[1], L[1], T[2], L[2], T[3], L[3], T[4], L[4], T[5], L[5]); break;
+    }
+    MARK = 2;
+    for (int j = 0; j < N; j++) free(L[j]);
+  } else if (!strcmp(f, "applyleft")) {  // nrows ncols phase trans plen mode seed   (mode 0: identity, 1: random P[i] >= i, 2: sparse)
+    mzd_t *M = mk(0, A(2), A(3), A(4)); int trans = A(5); mzp_t *P = mkperm(A(6), A(2), A(7), A(8));
+    fflush(stdout); MARK = 1; if (trans) mzd_apply_p_left_trans(M, P); else mzd_apply_p_left(M, P); MARK = 2;
+    mzp_free(P);
+  } else if (!strcmp(f, "colswapfull")) {  // nrows ncols phase cola colb
+    mzd_t *M = mk(0, A(2), A(3), A(4));
+    fflush(stdout); MARK = 1; mzd_col_swap(M, A(5), A(6)); MARK = 2;
+  } else if (!strcmp(f, "apright")) {  // nrows ncols phase start_row start_col notrans plen mode seed
+    mzd_t *M = mk(0, A(2), A(3), A(4)); int start_row = A(5), start_col = A(6), notrans = A(7);
+    printf("X %d\n", (int)__M4RI_CPU_L1_CACHE);
+    mzp_t *P = mkperm(A(8), A(3), A(9), A(10));
+    mzd_randomize(parents[0]);
+    // the temporary B = mzd_init(step_size, A->ncols) of the routine: make the block cache hand out a block we know
+    int step = MIN(M->nrows - start_row, MAX((__M4RI_CPU_L1_CACHE >> 3) / M->width, 1));
+    word *bdata = NULL;
+    if (step > 0) {
+      m4ri_mmc_cleanup();
+      mzd_t *B0 = mzd_init(step, M->ncols); bdata = B0->data;
+      printf("OP 1 data=%lx rowstride=%d nrows=%d ncols=%d lo=%lx hi=%lx\n", (unsigned long)B0->data, B0->rowstride, step, M->ncols,
+             (unsigned long)B0->data, (unsigned long)(B0->data + (size_t)B0->rowstride * step));
+      mzd_free(B0);
+    }
+    fflush(stdout); MARKT = 1; _mzd_apply_p_right_even(M, P, start_row, start_col, notrans); MARKT = 2;
+    if (step > 0) {  // check that the routine really used that block: it is back in the cache now
+      mzd_t *B1 = mzd_init(step, M->ncols);
+      if (B1->data != bdata) { printf("BCHK FAILED\n"); fprintf(stderr, "BCHK FAILED\n"); }
+      mzd_free(B1);
+    }
+    mzp_free(P);
+  } else if (!strcmp(f, "aprtri")) {  // nrows ncols phase mode seed     (P->length = ncols, P[i] >= i)
+    mzd_t *M = mk(0, A(2), A(3), A(4));
+    printf("X %d\n", (int)__M4RI_CPU_L1_CACHE);
+    mzp_t *P = mkperm(A(3), A(3), A(5), A(6));
+    fflush(stdout); MARK = 1; mzd_apply_p_right_trans_tri(M, P); MARK = 2;
+    mzp_free(P);
+  } else if (!strcmp(f, "compressl")) {  // nrows ncols phase r1 n1 r2
+    mzd_t *M = mk(0, A(2), A(3), A(4));
+    mzd_randomize(parents[0]);
+    fflush(stdout); MARK = 1; _mzd_compress_l(M, A(5), A(6), A(7)); MARK = 2;
+  } else if (!strcmp(f, "prple") || !strcmp(f, "a11")) {
+    // prple N ; M hdr ; phT ; startrow stoprow startcol       fill tw ; k_0..k_{N-1}
+    // a11   N ; A hdr ; phT ; start_row stop_row start_col block fill tw ; k_0..k_{N-1}     (N = 1: _mzd_ple_a11_1)
+    int isa = !strcmp(f, "a11");
+    int N = A(2); mzd_t *M = mk(0, A(3), A(4), A(5)); int phT = A(6);
+    int r0 = A(7), r1 = A(8), sc = A(9); int block = isa ? A(10) : 0; int fill = A(10 + isa), tw = A(11 + isa);
+    int ks[8], sh[8], ktot = 0; const ple_table_t *T[8];
+    rs_ = 88172645463325252ULL + 977 * fill + 31 * sc + N;
+    for (int j = 0; j < N; j++) { ks[j] = A(12 + isa + j); sh[j] = ktot; ktot += ks[j]; }
+    for (int j = 0; j < N; j++) { int nr = 1 << ks[j]; if (nr < 2) nr = 2; T[j] = mk_table(j + 1, nr, A(4) + 64 * tw, phT, ks[j], fill); }
+    fill_random(M, fill);
+    printf("X");
+    for (int i = 0; i < M->nrows; i++) { word bits = mzd_read_bits(M, i, sc, ktot);
+      for (int j = 0; j < N; j++) { int x;
+        if (isa) x = T[j]->M[(bits >> sh[j]) & __M4RI_LEFT_BITMASK(ks[j])];
+        else { x = T[j]->E[(bits >> sh[j]) & __M4RI_LEFT_BITMASK(ks[j])]; bits ^= T[j]->B[x]; }
+        printf(" %d", x); } }
+    printf("\n");
+    fflush(stdout); MARK = 1;
+    if (!isa) switch (N) {
+    case 2: _mzd_process_rows_ple_2(M, r0, r1, sc, ks, T); break;
+    case 3: _mzd_process_rows_ple_3(M, r0, r1, sc, ks, T); break;
+    case 4: _mzd_process_rows_ple_4(M, r0, r1, sc, ks, T); break;
+    case 5: _mzd_process_rows_ple_5(M, r0, r1, sc, ks, T); break;
+    case 6: _mzd_process_rows_ple_6(M, r0, r1, sc, ks, T); break;
+    case 7: _mzd_process_rows_ple_7(M, r0, r1, sc, ks, T); break;
+    case 8: _mzd_process_rows_ple_8(M, r0, r1, sc, ks, T); break;
+    } else switch (N) {
+    case 1: _mzd_ple_a11_1(M, r0, r1, sc, block, ks[0], T[0]); break;
+    case 2: _mzd_ple_a11_2(M, r0, r1, sc, block, ks, T); break;
+    case 3: _mzd_ple_a11_3(M, r0, r1, sc, block, ks, T); break;
+    case 4: _mzd_ple_a11_4(M, r0, r1, sc, block, ks, T); break;
+    case 5: _mzd_ple_a11_5(M, r0, r1, sc, block, ks, T); break;
+    case 6: _mzd_ple_a11_6(M, r0, r1, sc, block, ks, T); break;
+    case 7: _mzd_ple_a11_7(M, r0, r1, sc, block, ks, T); break;
+    case 8: _mzd_ple_a11_8(M, r0, r1, sc, block, ks, T); break;
+    }
+    MARK = 2;
+  } else if (!strcmp(f, "a10")) {  // A hdr ; start_row start_col addblock k fill ; argv[10..10+k) = pivots
+    mzd_t *Am = mk(0, A(2), A(3), A(4)); int sr = A(5), sc = A(6), ab = A(7), k = A(8), fill = A(9);
+    rs_ = 88172645463325252ULL + 977 * fill + 31 * sc + k;
+    fill_random(Am, fill);
+    mzp_t *P = mzp_init(Am->nrows); rci_t piv[64];
+    for (int i = 0; i < k; i++) { piv[i] = A(10 + i); P->values[sr + i] = sr + i + (rci_t)(rnd64() % (Am->nrows - sr - i)); if (fill == 3) P->values[sr + i] = sr + i; }
+    // replay on a copy to obtain the bit tests the run will make (a re-implementation used only to produce the X data)
+    mzd_t *C = mzd_copy(NULL, Am);
+    printf("X"); for (int i = 0; i < k; i++) printf(" %d", P->values[sr + i]); printf("\n");
+    printf("X");
+    if (ab != C->width) {
+      for (int i = sr; i < sr + k; i++) _mzd_row_swap(C, i, P->values[i], ab);
+      for (int i = 1; i < k; i++) { word tmp = mzd_read_bits(C, sr + i, sc, piv[i]);
+        for (int j = 0; j < i; j++) { int bit = (int)((tmp >> piv[j]) & 1); printf(" %d", bit);
+          if (bit) for (wi_t w = ab; w < C->width; w++) mzd_row(C, sr + i)[w] ^= mzd_row(C, sr + j)[w]; } }
+    } else for (int i = 0; i < k * (k - 1) / 2; i++) printf(" 0");
+    printf("\n");
+    fflush(stdout); MARK = 1; _mzd_ple_a10(Am, P, sr, sc, ab, k, piv); MARK = 2;
+    if (!mzd_equal(C, Am)) printf("A10-REPLAY-DIFFERS\n");
+  } else if (!strcmp(f, "mtple")) {  // A hdr ; T hdr ; r writecol k knar readcol fullrank fill
+    mzd_t *Am = mk(0, A(2), A(3), A(4)); int k = A(10), knar = A(11), fill = A(14);
+    rs_ = 88172645463325252ULL + 977 * fill + 31 * A(9) + k;
+    ple_table_t *t = mk_table(1, A(5), A(6), A(7), k, fill);
+    fill_random(Am, fill);
+    rci_t offsets[64]; int base = 3;   // strictly increasing, offsets[j] - base in [j, k)
+    for (int j = 0; j < knar; j++) offsets[j] = base + j + ((j >= knar / 2) ? (k - knar) : 0);
+    printf("X"); if (knar > 0) for (int i = 0; i < (1 << knar); i++) printf(" %d", m4ri_codebook[knar]->inc[i]); printf("\n");
+    fflush(stdout); MARK = 1; mzd_make_table_ple(Am, A(8), A(9), k, knar, t, offsets, base, A(12), A(13)); MARK = 2;
+  } else if (f[0] == 't' && f[1] == 'k' && f[2] == '_') {
+    // raw-pointer transposition kernels: D hdr (nrows ncols phase) ; S hdr ; drow dblk srow sblk ; kernel specific …
+    mzd_t *D = mk(0, A(2), A(3), A(4)); mzd_t *S = mk(1, A(5), A(6), A(7));
+    word *d = mzd_row(D, A(8)) + A(9); word const *sp = mzd_row_const(S, A(10)) + A(11);
+    wi_t rd_ = D->rowstride, rs_ = S->rowstride;
+    fflush(stdout);
+    if (!strcmp(f, "tk_64x64")) { MARK = 1; _mzd_copy_transpose_64x64(d, sp, rd_, rs_); MARK = 2; }
+    else if (!strcmp(f, "tk_64x64_2")) {  // … drow2 dblk2 srow2 sblk2
+      word *d2 = mzd_row(D, A(12)) + A(13); word const *s2 = mzd_row_const(S, A(14)) + A(15);
+      MARK = 1; _mzd_copy_transpose_64x64_2(d, d2, sp, s2, rd_, rs_); MARK = 2; }
+    else if (!strcmp(f, "tk_lt64x64")) { MARK = 1; _mzd_copy_transpose_lt64x64(d, sp, rd_, rs_, A(12)); MARK = 2; }
+    else if (!strcmp(f, "tk_64xlt64")) { MARK = 1; _mzd_copy_transpose_64xlt64(d, sp, rd_, rs_, A(12)); MARK = 2; }
+    else if (!strcmp(f, "tk_le8")) { MARK = 1; _mzd_copy_transpose_le8xle8(d, sp, rd_, rs_, A(12), A(13), A(14)); MARK = 2; }
+    else if (!strcmp(f, "tk_le16")) { MARK = 1; _mzd_copy_transpose_le16xle16(d, sp, rd_, rs_, A(12), A(13), A(14)); MARK = 2; }
+    else if (!strcmp(f, "tk_le32")) { MARK = 1; _mzd_copy_transpose_le32xle32(d, sp, rd_, rs_, A(12), A(13)); MARK = 2; }
+    else if (!strcmp(f, "tk_le64")) { MARK = 1; _mzd_copy_transpose_le64xle64(d, sp, rd_, rs_, A(12), A(13)); MARK = 2; }
+    else if (!strcmp(f, "tk_small")) { MARK = 1; _mzd_copy_transpose_small(d, sp, rd_, rs_, A(12), A(13), A(14)); MARK = 2; }
+    else if (!strcmp(f, "tk_base")) { MARK = 1; _mzd_transpose_base(d, sp, rd_, rs_, A(12), A(13), A(14)); MARK = 2; }
+    else if (!strcmp(f, "tk_notsmall")) { MARK = 1; _mzd_transpose_notsmall(d, sp, rd_, rs_, A(12), A(13), A(14)); MARK = 2; }
+    else if (!strcmp(f, "tk_top")) { MARK = 1; _mzd_transpose(d, sp, rd_, rs_, A(12), A(13), A(14)); MARK = 2; }
+    else { fprintf(stderr, "unknown %s\n", f); return 2; }
+  } else if (!strcmp(f, "transpose")) {  // public entry: A hdr (nrows ncols phase) kindA ; phaseD kindD   (kind 0 = window by mk, 1 = whole matrix by mzd_init)
+    // DST (operand 0) is A->ncols x A->nrows.  Temporaries allocated by mzd_transpose itself are not declared (not recorded).
+    mzd_t *D = mkany(0, A(3), A(2), A(6), A(7)); mzd_t *Am = mkany(1, A(2), A(3), A(4), A(5));
+    printf("X %d %d\n", mzd_is_dangerous_window(Am) ? 1 : 0, mzd_is_dangerous_window(D) ? 1 : 0);
+    fflush(stdout); MARK = 1; mzd_transpose(D, Am); MARK = 2;
+  } else if (!strcmp(f, "trsmsub")) {  // upper ; U: nrows ncols phase ; B: nrows ncols phase ; start_row k fill
+    int upper = A(2); mzd_t *U = mk(0, A(3), A(4), A(5)); mzd_t *B = mk(1, A(6), A(7), A(8));
+    int sr = A(9), k = A(10), fill = A(11);
+    srand(fill * 7919 + k + 31 * sr);
+    // fill: 0 = zero matrix, 1 = all ones, 2 = density 1/2, 3 = density 1/8, 4 = density 7/8
+    // only the k x k block at (start_row, start_row) of U is looked at; the contents of B are irrelevant for the trace
+    for (int i = sr; i < sr + k; i++) for (int j = sr; j < sr + k; j++) {
+      int r = rand() % 8; int b = fill == 0 ? 0 : fill == 1 ? 1 : fill == 2 ? (r < 4) : fill == 3 ? (r < 1) : (r < 7);
+      mzd_write_bit(U, i, j, b); }
+    printf("X"); for (int i = 0; i < k; i++) for (int j = 0; j < k; j++) printf(" %d", (int)mzd_read_bit(U, sr + i, sr + j)); printf("\n");
+    fflush(stdout); MARK = 1;
+    if (upper) _mzd_trsm_upper_left_submatrix(U, B, sr, k, B->high_bitmask);
+    else _mzd_trsm_lower_left_submatrix(U, B, sr, k, B->high_bitmask);
+    MARK = 2;
+  } else if (!strcmp(f, "mktrtri")) {  // M: nrows ncols phase ; T: nrows ncols phase ; r c k startcol
+    mzd_t *M = mk(0, A(2), A(3), A(4)); mzd_t *T = mk(1, A(5), A(6), A(7)); int r = A(8), c = A(9), k = A(10), sc = A(11);
+    ple_table_t Tb; Tb.T = T; Tb.E = malloc(sizeof(rci_t) << k); Tb.M = malloc(sizeof(rci_t) << k); Tb.B = malloc(sizeof(word) << k);
+    printf("X"); for (int i = 0; i < (1 << k); i++) printf(" %d", m4ri_codebook[k]->inc[i]); printf("\n");
+    fflush(stdout); MARK = 1; mzd_make_table_trtri(M, r, c, k, &Tb, sc); MARK = 2;
+    free(Tb.E); free(Tb.M); free(Tb.B);
+  } else if (!strcmp(f, "trsmrus")) {  // upper ; nU phU ; B: nrows ncols phase ; k fill      (U is nU x nU)
+    int upper = A(2); mzd_t *U = mk(0, A(3), A(3), A(4)); mzd_t *B = mk(1, A(5), A(6), A(7)); int k = A(8), fill = A(9);
+    srand(fill * 7919 + k + 31 * A(3));
+    // fill: 0 = zero, 1 = all ones, 2 = random words, 3 = sparse (and of 3 random words), 4 = dense (or of 3)
+    for (int i = 0; i < U->nrows; i++) for (int w = 0; w < U->width; w++) {
+      word a = rnd64b(), b = rnd64b(), c = rnd64b();
+      mzd_row(U, i)[w] = fill == 0 ? 0 : fill == 1 ? m4ri_ffff : fill == 2 ? a : fill == 3 ? (a & b & c) : (a | b | c); }
+    m4ri_mmc_cleanup();
+    mzd_t *P[8]; word *tdata[8]; int b_align = (__M4RI_ALIGNMENT(mzd_row(B, 0), 16) == 8);
+    for (int t = 0; t < 8; t++) {
+      P[t] = mzd_init(__M4RI_TWOPOW(k), B->ncols + m4ri_radix); tdata[t] = P[t]->data;
+      printf("OP %d data=%lx rowstride=%d nrows=%d ncols=%d lo=%lx hi=%lx\n", 2 + t, (unsigned long)(P[t]->data + b_align),
+             P[t]->rowstride, P[t]->nrows, B->ncols, (unsigned long)P[t]->data,
+             (unsigned long)(P[t]->data + (size_t)P[t]->rowstride * P[t]->nrows)); }
+    for (int t = 0; t < 8; t++) mzd_free(P[t]);
+    printf("X");
+    for (int q = 1; q <= k; q++) { for (int i = 0; i < (1 << q); i++) printf(" %d", m4ri_codebook[q]->inc[i]);
+                                   for (int i = 0; i < (1 << q); i++) printf(" %d", m4ri_codebook[q]->ord[i]); }
+    for (int i = 0; i < U->nrows; i++) for (int w = 0; w < U->width; w++) printf(" %lu", (unsigned long)mzd_row(U, i)[w]);   // the words of U
+    printf("\n");
+    fflush(stdout); MARKT = 1;
+    if (upper) _mzd_trsm_upper_left_russian(U, B, k); else _mzd_trsm_lower_left_russian(U, B, k);
+    MARKT = 2;
+    { int found = 0;   // the routine has freed its tables: the block cache must now hold exactly our 8 blocks of that size
+      for (int t = 0; t < 8; t++) P[t] = mzd_init(__M4RI_TWOPOW(k), B->ncols + m4ri_radix);
+      for (int t = 0; t < 8; t++) for (int u = 0; u < 8; u++) if (P[t]->data == tdata[u]) found++;
+      for (int t = 0; t < 8; t++) mzd_free(P[t]);
+      if (found != 8) { printf("TCHK FAILED\n"); fprintf(stderr, "block cache check failed: %d of 8\n", found); } }
+  } else if (!strcmp(f, "trtrisub")) {  // A: nrows ncols phase ; pivot_r elim_r k fill
+    mzd_t *Am = mk(0, A(2), A(3), A(4)); int pr = A(5), er = A(6), k = A(7), fill = A(8);
+    srand(fill * 7919 + k + 31 * pr);
+    for (int i = (er < pr ? er : pr); i < pr + k; i++) for (int w = 0; w < Am->width; w++) {   // only these rows are looked at
+      word a = rnd64b(), b = rnd64b(), c = rnd64b();
+      mzd_row(Am, i)[w] = fill == 0 ? 0 : fill == 1 ? m4ri_ffff : fill == 2 ? a : fill == 3 ? (a & b & c) : (a | b | c); }
+    // the bits are read from a matrix that the row additions modify: obtain them by running the same loop on a copy
+    mzd_t *C = mzd_copy(NULL, Am);
+    printf("X");
+    for (rci_t i = pr; i < pr + k; i++) for (rci_t j = er; j < i; j++) {
+      int b = mzd_read_bit(C, j, i); printf(" %d", b); if (b && (i + 1) < C->ncols) mzd_row_add_offset(C, j, i, i + 1); }
+    printf("\n"); mzd_free(C);
+    fflush(stdout); MARK = 1; copy_mzd_trtri_upper_submatrix(Am, pr, er, k); MARK = 2;
   } else { fprintf(stderr, "unknown %s\n", f); return 2; }
   return 0;
 }
 int main(int argc, char **argv) {
   printf("MARK %lx\n", (unsigned long)&MARK);
-  FILE *fp = fopen(argv[1], "r"); char line[4096]; int idx = 0;
+  FILE *fp = fopen(argv[1], "r"); char line[65536]; int idx = 0;
   while (fgets(line, sizeof line, fp)) {
-    char *av[64]; int ac = 1; av[0] = "drv";
+    char *av[4096]; int ac = 1; av[0] = "drv";
     for (char *t = strtok(line, " \n"); t; t = strtok(NULL, " \n")) av[ac++] = t;
     if (ac < 2 || av[1][0] == '#') continue;
     printf("CASE %d\n", idx++);
